@@ -738,7 +738,21 @@ func (g *c19Gen) noncanonical() c19Req {
 	pre, tile := rel[:i], rel[i:]
 	parts := strings.SplitN(strings.TrimPrefix(tile, "tile/"), "/", 2) // level, rest
 	lvl, rest := parts[0], parts[1]
-	switch g.n("nc", 18) {
+	switch g.n("nc", 22) {
+	case 18, 19, 20, 21:
+		// a percent-encoded spelling of the very same path: one or two characters after "tile/" (a separator, a digit, a letter)
+		b := []byte(tile)
+		out := []byte("tile/")
+		k1 := 5 + g.n("encAt", len(b)-5)
+		k2 := 5 + g.n("encAt2", len(b)-5)
+		for i := 5; i < len(b); i++ {
+			if i == k1 || (i == k2 && g.n("encTwo", 2) == 0) {
+				out = append(out, []byte(fmt.Sprintf(g.of("encCase", "%%%02X", "%%%02x"), b[i]))...)
+			} else {
+				out = append(out, b[i])
+			}
+		}
+		return c19Req{Method: "GET", Host: e.Host, Target: e.Path + "/" + pre + string(out), Gen: "noncanonical-encoded"}
 	case 0:
 		tile = "tile/" + lvl + "/" + strings.TrimLeft(rest, "0")
 	case 1:
@@ -1074,7 +1088,7 @@ func c19Check(t c19TB, w *c19World, req c19Req, resp *c19Resp) (classes []string
 	what := fmt.Sprintf("%s %q Host=%q %v (world seed %d)", req.Method, req.Target, req.Host, req.Extra, w.Seed)
 	host, rawPath, wellFormed := c19SplitTarget(req.Target, req.Host)
 	var routed *c19Entry
-	var lay *c19Layout
+	var lay, layEnc *c19Layout
 	decoded := ""
 	if wellFormed {
 		var ok bool
@@ -1082,6 +1096,13 @@ func c19Check(t c19TB, w *c19World, req c19Req, resp *c19Resp) (classes []string
 			routed = w.route(host, decoded)
 		}
 		lay = w.layout(host, rawPath)
+		if lay == nil && routed != nil && decoded != rawPath {
+			// a percent-encoded spelling of a layout path: if the server answers it with the object that path names, the
+			// answer is a layout response like any other and carries the prescribed metadata
+			if l2 := w.layout(host, decoded); l2 != nil && l2.Exists {
+				layEnc = l2
+			}
+		}
 	}
 	classes = append(classes, "gen:"+req.Gen, fmt.Sprintf("status:%d", resp.Status), "method:"+req.Method)
 	if routed != nil {
@@ -1194,6 +1215,26 @@ func c19Check(t c19TB, w *c19World, req c19Req, resp *c19Resp) (classes []string
 					t.Fatalf("METADATA: Cache-Control %q, layout prescribes no-store for %s: %s", cc, kind, what)
 				}
 			}
+		}
+	}
+
+	if layEnc != nil && isGet && resp.Status == 200 && bytes.Equal(resp.Body, layEnc.File.Data) {
+		kind := layEnc.File.Kind
+		classes = append(classes, "layout-object-served-under-an-encoded-spelling:"+kind)
+		ct, gz, cache := c19Prescribed(kind)
+		if got := resp.Header.Get("Content-Type"); got != ct {
+			t.Fatalf("METADATA: Content-Type %q, layout prescribes %q for %s (served under a percent-encoded spelling of its path): %s", got, ct, kind, what)
+		}
+		ce := resp.Header.Values("Content-Encoding")
+		if gz && (len(ce) != 1 || ce[0] != "gzip") {
+			t.Fatalf("METADATA: Content-Encoding %q, layout prescribes gzip for %s (served under a percent-encoded spelling of its path): %s", ce, kind, what)
+		}
+		if !gz && len(ce) != 0 {
+			t.Fatalf("METADATA: Content-Encoding %q on a %s object that is not stored compressed: %s", ce, kind, what)
+		}
+		cc := strings.Join(resp.Header.Values("Cache-Control"), ",")
+		if cache == "immutable" && (!c19HasToken(cc, "immutable") || c19HasToken(cc, "no-store")) || cache == "no-store" && (!c19HasToken(cc, "no-store") || c19HasToken(cc, "immutable")) {
+			t.Fatalf("METADATA: Cache-Control %q, layout prescribes %s for %s (served under a percent-encoded spelling of its path): %s", cc, cache, kind, what)
 		}
 	}
 
